@@ -16,6 +16,9 @@ impl Address {
     pub fn to_socket_addr(&self) -> io::Result<SocketAddr> {
         match self {
             Address::Domain(host, port) => {
+                #[cfg(octo_squirrel_verif)]
+                return crate::verif::dns::resolve(host, *port);
+                #[cfg(not(octo_squirrel_verif))]
                 format!("{host}:{port}").to_socket_addrs()?.next().ok_or(io::Error::new(io::ErrorKind::AddrNotAvailable, ""))
             }
             Address::Socket(addr) => Ok(*addr),
